@@ -534,6 +534,16 @@ void convertEdgelist(const std::string& infilename,
                           std::optional<char>());
 }
 
+//! Text output must carry enough digits to read a floating point weight back
+//! unchanged (the stream default of 6 digits does not).
+template <typename EdgeTy>
+void setWeightPrecision(std::ostream& out) {
+  if constexpr (std::is_floating_point<EdgeTy>::value)
+    out.precision(std::numeric_limits<EdgeTy>::max_digits10);
+  else
+    (void)out;
+}
+
 /**
  * Assumption: First line has labels
  * Just a bunch of pairs or triples:
@@ -741,6 +751,7 @@ struct Gr2Mtx : public HasNoVoidSpecialization {
     graph.fromFile(infilename);
 
     std::ofstream file(outfilename.c_str());
+    setWeightPrecision<EdgeTy>(file);
     file << graph.size() << " " << graph.size() << " " << graph.sizeEdges()
          << "\n";
     for (Graph::iterator ii = graph.begin(), ei = graph.end(); ii != ei; ++ii) {
@@ -749,8 +760,10 @@ struct Gr2Mtx : public HasNoVoidSpecialization {
                                 ej = graph.edge_end(src);
            jj != ej; ++jj) {
         GNode dst = graph.getEdgeDst(jj);
-        double v  = static_cast<double>(graph.getEdgeData<EdgeTy>(jj));
-        file << src + 1 << " " << dst + 1 << " " << v << "\n";
+        // unary + prints small integer types as numbers; integers are not
+        // forced through a (6 digit) floating point format
+        file << src + 1 << " " << dst + 1 << " "
+             << +graph.getEdgeData<EdgeTy>(jj) << "\n";
       }
     }
     file.close();
@@ -876,6 +889,7 @@ struct Gr2Edgelist : public Conversion {
     graph.fromFile(infilename);
 
     std::ofstream file(outfilename.c_str());
+    setWeightPrecision<EdgeTy>(file);
     for (Graph::iterator ii = graph.begin(), ei = graph.end(); ii != ei; ++ii) {
       GNode src = *ii;
       for (Graph::edge_iterator jj = graph.edge_begin(src),
@@ -912,6 +926,7 @@ struct Gr2Edgelist1Ind : public Conversion {
     graph.fromFile(infilename);
 
     std::ofstream file(outfilename.c_str());
+    setWeightPrecision<EdgeTy>(file);
     for (Graph::iterator ii = graph.begin(), ei = graph.end(); ii != ei; ++ii) {
       GNode src = *ii;
       for (Graph::edge_iterator jj = graph.edge_begin(src),
@@ -2296,6 +2311,7 @@ struct Gr2Pbbsedges : public HasNoVoidSpecialization {
     graph.fromFile(infilename);
 
     std::ofstream file(outfilename.c_str());
+    setWeightPrecision<EdgeTy>(file);
     file << "WeightedEdgeArray\n";
     for (Graph::iterator ii = graph.begin(), ei = graph.end(); ii != ei; ++ii) {
       GNode src = *ii;
@@ -2345,6 +2361,7 @@ struct Gr2Pbbs : public Conversion {
     graph.fromFile(infilename);
 
     std::ofstream file(outfilename.c_str());
+    setWeightPrecision<EdgeTy>(file);
     if constexpr (!std::is_void<EdgeTy>::value)
       file << "Weighted";
     file << "AdjacencyGraph\n"
@@ -2448,6 +2465,7 @@ struct Gr2Dimacs : public HasNoVoidSpecialization {
     graph.fromFile(infilename);
 
     std::ofstream file(outfilename.c_str());
+    setWeightPrecision<EdgeTy>(file);
     file << "p sp " << graph.size() << " " << graph.sizeEdges() << "\n";
     for (Graph::iterator ii = graph.begin(), ei = graph.end(); ii != ei; ++ii) {
       GNode src = *ii;
@@ -2629,6 +2647,7 @@ struct Gr2Neo4j : public Conversion {
     // output edge CSV with or without data for edge creation
     std::string edgeFile = outfilename + ".edges";
     std::ofstream fileE(edgeFile.c_str());
+    setWeightPrecision<EdgeTy>(fileE);
 
     // write edges
     for (Graph::iterator ii = graph.begin(), ei = graph.end(); ii != ei; ++ii) {
